@@ -846,6 +846,9 @@ func (vfs *MemFS) Rename(oldpath, newpath string) error {
 		if !vfs.isNotExist(nErr) {
 			if vfs.OSType() == avfs.OsWindows {
 				nErr = avfs.ErrWinAccessDenied
+			} else if _, ok := nChild.(*dirNode); !ok {
+				// A directory can't replace a file.
+				nErr = vfs.err.NotADirectory
 			}
 
 			return &os.LinkError{Op: op, Old: oldpath, New: newpath, Err: nErr}
